@@ -29,7 +29,7 @@ extern "C"
 {
     int igc_sprintf(char *buf, const char *format, ...);
     int igc_fdprintf(int fd, const char *format, ...);
-    int igc_fdputc(int c, int fd);
+    long igc_write(int fd, const void *buf, unsigned long n);
 }
 
 struct Sink
@@ -46,10 +46,11 @@ struct Sink
     }
 };
 static Sink *g_fd_sink[2]; // descriptor = thread id: 0 and 1 are as valid as any other
-int igc_fdputc(int c, int fd)
-{
-    g_fd_sink[fd]->put(c);
-    return 1;
+long igc_write(int fd, const void *buf, unsigned long n)
+{ // the device behind fdprintf.c / fdputc.c
+    for (unsigned long i = 0; i < n; i++)
+        g_fd_sink[fd]->put(((const char *)buf)[i]);
+    return (long)n;
 }
 static void sink_cb(void *d, int c) { ((Sink *)d)->put(c); }
 static int via_printf(Sink *s, const char *fmt, ...)
